@@ -58,8 +58,11 @@ def write_service_meta(sid: str, meta: dict):
     if not service_dir_path.exists():
         return
 
-    with open(service_dir_path.joinpath("service_meta"), "wb") as f:
+    # write a sibling file and rename it, a crash must not leave a truncated state file
+    tmp_path = service_dir_path.joinpath("service_meta.tmp")
+    with open(tmp_path, "wb") as f:
         pickle.dump(meta, f)
+    tmp_path.replace(service_dir_path.joinpath("service_meta"))
 
 
 def read_encrypted_database(sid: str) -> bytes:
